@@ -475,6 +475,8 @@ def h1_items(tier):
             out.append([fn, nf])
         if fn == 'unformat_matching':
             out.append([fn, 'none'])
+            out.append([fn, 'set+none'])
+            out.append([fn, 'none+set'])
     out.append(['apply_formatting_for_match', 1])
     return out
 
@@ -490,7 +492,14 @@ def h1_task(envr, item):
             run_contract(envr, c, 'AnsiString.' + fn, s, [mk_arg(c, 'settings', 'f0'), m, 0], {}, CL_AM)
             return
         spec = sym.s_opaque(c.opaque_text('Spec'))
-        fmts = [None] if nf == 'none' else [mk_arg(c, 'settings', 'f%d' % i) for i in range(nf)]
+        if nf == 'none':
+            fmts = [None]
+        elif nf == 'set+none':
+            fmts = [mk_arg(c, 'settings', 'f0'), None]     # None anywhere among the formats means: all settings
+        elif nf == 'none+set':
+            fmts = [None, mk_arg(c, 'settings', 'f0')]
+        else:
+            fmts = [mk_arg(c, 'settings', 'f%d' % i) for i in range(nf)]
         kw = {'regex': c.named_bool('regex'), 'match_case': c.named_bool('match_case'), 'count': c.named_int('count')}
         run_contract(envr, c, 'AnsiString.' + fn, s, [spec] + fmts, kw, CL_FM if fn == 'format_matching' else CL_UM)
 
@@ -501,11 +510,18 @@ def h1_task(envr, item):
         if fn == 'apply_formatting_for_match':
             return
         for base in native_receivers(envr):
-            for spec in ('a', 'b', 'ab', 'A', ' ', 'X', '.', 'a*', 'B', 'aa'):
+            for spec in ('a', 'b', 'ab', 'A', ' ', 'X', '.', 'a*', 'B', 'aa', 'ss', 'tax'):
                 for regex in (False, True):
                     for mc in (False, True):
                         for cnt in (-1, 0, 1, 2):
-                            fm = [None] if nf == 'none' else [[A('4%d' % i)] for i in range(nf if isinstance(nf, int) else 0)]
+                            if nf == 'none':
+                                fm = [None]
+                            elif nf == 'set+none':
+                                fm = [[A('31')], None]
+                            elif nf == 'none+set':
+                                fm = [None, [A('31')]]
+                            else:
+                                fm = [[A('4%d' % i)] for i in range(nf)]
                             yield ('AnsiString.' + fn, base, [spec] + fm, {'regex': regex, 'match_case': mc, 'count': cnt}, {})
     cl = CL_AM if fn == 'apply_formatting_for_match' else (CL_FM if fn == 'format_matching' else CL_UM)
     return ContractRun(body, cl, use=('ABS',), pool=pool)
